@@ -3,8 +3,8 @@
 
    The two modes run the same graph (checked per definition: the captured graphs are equal) and
    differ only in find_boundary. *)
-From Coq Require Import List NArith.
-From LogosV Require Import Base.Utf8 Engine.Model Engine.Cert Engine.CertProofs Engine.Run Engine.Utf8Lex Engine.Utf8Stream.
+From Coq Require Import List NArith FMapPositive.
+From LogosV Require Import Base.Utf8 Engine.Model Engine.Cert Engine.CertProofs Engine.Run Engine.Utf8Lex Engine.Utf8Stream Engine.Prog Engine.StreamProg.
 Import ListNotations.
 Local Open Scope N_scope.
 
@@ -40,3 +40,13 @@ Theorem C12_streams_agree : forall d g V R D P,
   split_errs (fst (lex_all (attempt_ref g) act (fb_str w) w false))
   = split_errs (fst (lex_all (attempt_ref g) act (fun i => i) w false)).
 Proof. exact str_bytes_streams_agree. Qed.
+
+(* ... and so do the streams of the program the code generator emits *)
+Theorem C12_emitted_streams_agree : forall U g p,
+  prog_ok g p = true -> wf_graph g = true ->
+  forall d V R D, dfa_ok d = true -> sim_ok d g V D = true -> exact_ok d g V R D = true ->
+  forall P act (w : list byte), utf8_ok d P = true -> utf8_strict_ok d P D = true -> bytes_ok w ->
+  (forall l s e, s < e -> e <= N.of_nat (length w) -> e + snd (act l s e) <= N.of_nat (length w)) ->
+  split_errs (fst (lex_all (fun ip s r => fst (attempt_prog U p (PositiveMap.cardinal (g_states g)) ip s r)) act (fb_str w) w false))
+  = split_errs (fst (lex_all (fun ip s r => fst (attempt_prog U p (PositiveMap.cardinal (g_states g)) ip s r)) act (fun i => i) w false)).
+Proof. exact emitted_streams_agree. Qed.
